@@ -41,7 +41,7 @@ type Publisher struct {
 // destination. Which may be a file system, or somewhere else of your choosing.
 // If you only wish to generate files you should use a DirectoryFileWriter.
 func NewPublisher(doc *gedcom.Document, options *PublishShowOptions) *Publisher {
-	options.surnames = collectSurnames(doc)
+	options.surnames = collectSurnames(doc, options.LivingVisibility)
 
 	return &Publisher{
 		doc:          doc,
